@@ -2618,8 +2618,11 @@ class SlicedMemoryIO(object):
             n_bytes = self._end_address - self.address
 
         # Determine how far to read, then read nothing beyond that point.
-        if self.address + n_bytes > self._end_address:
-            new_n_bytes = self._end_address - self.address
+        if (self.address < self._start_address or
+                self.address + n_bytes > self._end_address):
+            # Nothing lies before the start or beyond the end of the region
+            new_n_bytes = (0 if self.address < self._start_address else
+                           max(0, self._end_address - self.address))
             warnings.warn("read truncated from {} to {} bytes".format(
                 n_bytes, new_n_bytes), TruncationWarning, stacklevel=3)
             n_bytes = new_n_bytes
@@ -2656,8 +2659,11 @@ class SlicedMemoryIO(object):
         int
             Number of bytes written.
         """
-        if self.address + len(bytes) > self._end_address:
-            n_bytes = self._end_address - self.address
+        if (self.address < self._start_address or
+                self.address + len(bytes) > self._end_address):
+            # Nothing lies before the start or beyond the end of the region
+            n_bytes = (0 if self.address < self._start_address else
+                       max(0, self._end_address - self.address))
 
             warnings.warn("write truncated from {} to {} bytes".format(
                 len(bytes), n_bytes), TruncationWarning, stacklevel=3)
